@@ -38,3 +38,52 @@ Lemma tables_are_fixpoints :
   forallb (fun ds => forallb (is_fixpoint ds) all_envs)
           [digraph_decls; sync_digraph_decls; ungraph_decls; sync_ungraph_decls] = true.
 Proof. vm_compute. reflexivity. Qed.
+
+(* "Consequently no safe program can reach a node value or edge value from two threads without the synchronisation that
+   value's own type provides": an explicit `unsafe impl Send/Sync` REPLACES the structural rule, so the exactness
+   statements above only restate its where-clause.  What makes the unsafe impl sound is that it claims no more than the
+   fields justify: with every explicit impl stripped from the regenerated declarations, the purely structural
+   auto-trait computation gives the same (Send, Sync) for Node, Edge and Graph of every flavour and every environment. *)
+Definition strip (d : decl) : decl := mkDecl (d_name d) (d_fields d) None None.
+
+Definition impls_justified (ds : list decl) : Prop :=
+  forall ks kc ns nc es ec : bool,
+    let e := mk_env ks kc ns nc es ec in
+    solve (map strip ds) e "Node" = solve ds e "Node" /\
+    solve (map strip ds) e "Edge" = solve ds e "Edge" /\
+    solve (map strip ds) e "Graph" = solve ds e "Graph".
+
+Ltac by_cases3 := intros [] [] [] [] [] []; vm_compute; (split; [reflexivity|split; reflexivity]).
+
+Lemma impls_justified_sync_digraph : impls_justified sync_digraph_decls.
+Proof. unfold impls_justified. by_cases3. Qed.
+Lemma impls_justified_sync_ungraph : impls_justified sync_ungraph_decls.
+Proof. unfold impls_justified. by_cases3. Qed.
+Lemma impls_justified_digraph : impls_justified digraph_decls.
+Proof. unfold impls_justified. by_cases3. Qed.
+Lemma impls_justified_ungraph : impls_justified ungraph_decls.
+Proof. unfold impls_justified. by_cases3. Qed.
+
+Lemma unsafe_impls_claim_only_what_the_fields_justify :
+  impls_justified sync_digraph_decls /\ impls_justified sync_ungraph_decls /\
+  impls_justified digraph_decls /\ impls_justified ungraph_decls.
+Proof.
+  exact (conj impls_justified_sync_digraph (conj impls_justified_sync_ungraph (conj impls_justified_digraph impls_justified_ungraph))).
+Qed.
+
+(* the statement has teeth: declarations whose Node is an Rc around a RefCell, carrying the SAME unsafe impls as
+   sync_digraph, still satisfy the exactness statement (the impl replaces the structural rule) but are rejected here *)
+Definition allb : bounds := mkBounds (fun _ => true) (fun _ => true).
+Definition rc_node_with_unsafe_impls : list decl := [
+  mkDecl "Node" [TApp CRc [TTuple [TParam PK; TParam PN; TApp CRefCell [TNamed "Adjacent"]]]] (Some allb) (Some allb);
+  mkDecl "WeakNode" [TApp CRcWeak [TTuple [TParam PK; TParam PN; TApp CRefCell [TNamed "Adjacent"]]]] None None;
+  mkDecl "Adjacent" [TApp CVec [TTuple [TNamed "WeakNode"; TParam PE]]; TApp CVec [TTuple [TNamed "WeakNode"; TParam PE]]] None None;
+  mkDecl "Edge" [TNamed "Node"; TNamed "Node"; TParam PE] None None;
+  mkDecl "Graph" [TApp CHashMap [TParam PK; TNamed "Node"]] None None ].
+
+Example unjustified_impl_is_rejected :
+  exact_sync rc_node_with_unsafe_impls /\ ~ impls_justified rc_node_with_unsafe_impls.
+Proof.
+  split; [unfold exact_sync; by_cases|].
+  intro H. specialize (H true true true true true true). destruct H as [H _]. vm_compute in H. discriminate H.
+Qed.
